@@ -316,22 +316,24 @@ def r2(ctx):
 def r4(ctx):
     fi = ctx.repo.func('region_rodded',
                        'RoddedRegion.calculate_pin_temperatures')
-    h1 = find_all("T_scaled = self.temp['coolant_int'] * self._q_p2sc",
-                  fi.node, 'stmt')
-    h2 = find_all('Tc_avg = T_scaled[self.subchannel.pin_adj]', fi.node,
-                  'stmt')
-    h3 = find_all('Tc_avg = np.ma.masked_array(Tc_avg, '
-                  'self.subchannel.pin_adj < 0)', fi.node, 'stmt')
-    h4 = find_all('Tc_avg = np.sum(Tc_avg, axis=1)', fi.node, 'stmt')
-    ok = bool(h1 and h2 and h3 and h4) and \
-        h1[0][0].lineno < h2[0][0].lineno < h3[0][0].lineno < h4[0][0].lineno
-    ctx.require(ok, 'C13.R4', fi, h1[0][0] if h1 else fi.node,
+    call = find_all('self.pin_model.calculate_temperatures(Q_p, Q_t, Q_h, '
+                    'Q_z)', fi.node)
+    ok = len(call) == 1
+    val = None
+    if ok:
+        val = ' '.join(src(U.value_at(fi.node, call[0][1]['Q_t'],
+                                      call[0][0].lineno)).split())
+        ok = val == ("np.sum(np.ma.masked_array((self.temp['coolant_int'] * "
+                     "self._q_p2sc)[self.subchannel.pin_adj], "
+                     "self.subchannel.pin_adj < 0), axis=1)")
+    ctx.require(ok, 'C13.R4', fi, call[0][0] if call else fi.node,
                 'pin coolant temperature = sum over adjacent subchannels of '
                 'T * (pin fraction of that subchannel type), missing '
-                'neighbours masked', key=fi.full + ' | pin-adjacent average')
-    call = find_all('self.pin_model.calculate_temperatures(pin_powers, Tc_avg,'
-                    ' htc, dz)', fi.node)
-    ctx.require(bool(call), 'C13.R4', fi, call[0][0] if call else fi.node,
+                'neighbours masked (value handed to the pin model: %s)' % val,
+                key=fi.full + ' | pin-adjacent average')
+    ctx.require(bool(call) and src(call[0][1]['Q_p']) == 'pin_powers' and
+                src(call[0][1]['Q_z']) == 'dz', 'C13.R4', fi,
+                call[0][0] if call else fi.node,
                 'the averaged coolant temperature is what the pin model gets',
                 key=fi.full + ' | handed to pin model')
     # weights: _q_p2sc is q_p2sc indexed by subchannel type (C01.R1 checks
